@@ -472,6 +472,48 @@ func (g *gen) forgedBlockScenario(w *world) {
 	g.c01check(w, []*party{v, m}, "after the genuine Reveal Signature message that followed: "+where)
 }
 
+
+// a second session of the same two conversation objects: the first one is ended by one side (the
+// other is then "finished" and may or may not call End itself), a new exchange follows at once
+func (g *gen) secondSessionScenario(w *world) {
+	version := 2 + g.r.Intn(2)
+	n := g.newAkeNet(w, version)
+	n.run(nil)
+	if !n.a.c.IsEncrypted() || !n.b.c.IsEncrypted() || w.dead {
+		return
+	}
+	e, o := n.a, n.b
+	if g.r.Intn(2) == 0 {
+		e, o = n.b, n.a
+	}
+	ts, _ := w.end(e)
+	n.push(e, ts)
+	n.run(nil)
+	both := g.r.Intn(2) == 0
+	if both {
+		ts, _ = w.end(o)
+		n.push(o, ts)
+		n.run(nil)
+	}
+	if g.r.Intn(2) == 0 {
+		w.tick(3600)
+	}
+	st := []*party{e, o}[g.r.Intn(2)]
+	g.dist[fmt.Sprintf("ake:second-session:other-side-ended-too=%v", both)]++
+	n.push(st, []otr3.ValidMessage{w.query(st)})
+	n.run(nil)
+	olog.ok("C01")
+	if !n.a.c.IsEncrypted() || !n.b.c.IsEncrypted() {
+		olog.viol("C01", "honest-exchange-fails", fmt.Sprintf("OTRv%d: a second session after the first was ended did not come up", version))
+		return
+	}
+	g.c01check(w, n.all, "in a second session of the same conversations")
+	if n.a.c.GetSSID() != n.b.c.GetSSID() {
+		olog.viol("C01", "ssid-differs", fmt.Sprintf("OTRv%d: both sides are encrypted from the same exchange of a second session but report session ids %x and %x", version, n.a.c.GetSSID(), n.b.c.GetSSID()))
+	}
+	g.c01probe(w, n.a, n.b)
+}
+
 // E holds key 2 and runs two honest library instances, e1 facing A and e2 facing B; besides relaying
 // inside its own sessions it tries to splice messages of one exchange into the other.
 func (g *gen) mitmScenario(w *world, version int) {
@@ -557,6 +599,10 @@ func init() {
 			}
 			if i%6 == 3 {
 				g.forgedBlockScenario(w)
+				continue
+			}
+			if i%12 == 1 {
+				g.secondSessionScenario(w)
 				continue
 			}
 			if rec := g.akeScenario(w, recorded); rec != nil && len(rec) >= 4 {
